@@ -159,6 +159,7 @@ class Run:
             tf = os.path.join(self.out, f"{name}.{mode}.{tag}.{k}.trace")
             cmd = [VH, mode, name, str(s0), str(c), tf, "1" if self.tier == "thorough" else "0"]
             procs.append((subprocess.Popen(cmd, stdout=subprocess.PIPE, stderr=subprocess.PIPE, env=ENV, text=True), tf, s0, c))
+        done = []
         for p, tf, s0, c in procs:
             try:
                 so, se = p.communicate(timeout=fam.get("timeout", 900))
@@ -175,12 +176,24 @@ class Run:
                 for f in js["oracle_failures"]:
                     res["oracle"].append((f["seed"], f["what"], tf))
                 res["unresolved"].update(js.get("unresolved_sites", []))
-            if not os.path.exists(tf):
-                continue
-            # replay in the model
-            if self.lean_ok and os.path.exists(DRIVER):
+            if os.path.exists(tf):
+                done.append(tf)
+
+        # replay in the model: one driver process per trace file, all files in parallel
+        def replay(tf):
+            try:
                 with open(tf) as fin:
-                    rc, o = sh([DRIVER], stdin=fin, timeout=900)
+                    return sh([DRIVER], stdin=fin, timeout=fam.get("replay_timeout", 3600))
+            except subprocess.TimeoutExpired:
+                return -9, "driver timed out"
+        replays = {}
+        if self.lean_ok and os.path.exists(DRIVER) and done:
+            from concurrent.futures import ThreadPoolExecutor
+            with ThreadPoolExecutor(max_workers=min(16, len(done))) as ex:
+                replays = dict(zip(done, ex.map(replay, done)))
+        for tf in done:
+            if tf in replays:
+                rc, o = replays[tf]
                 for l in o.split("\n"):
                     if l.startswith("DIV "):
                         m = re.search(r"seed=(\d+)", l)
@@ -191,7 +204,7 @@ class Run:
                         m = re.search(r"\[(.*)\]", l)
                         if m and m.group(1): res["cov"].update(m.group(1).split(","))
                 if rc not in (0, 1):
-                    res["errors"].append(f"driver crashed rc={rc}: {o[-300:]}")
+                    res["errors"].append(f"driver crashed rc={rc} on {os.path.basename(tf)}: {o[-300:]}")
             # distinctness / non-triviality, measured on the canonical traces
             nt = re.compile(fam.get("nontrivial", r"."))
             cur, hdr = [], None
@@ -241,14 +254,20 @@ class Run:
                         return "FAILED"
         return "no-suitable-trace"
 
-    def scenario_text(self, tf, seed):
-        out, on = [], False
+    def scenario_text(self, tf, seed, want_fail=True):
+        """the trace block of `seed`; a detx file holds one block per explored schedule of the same seed:
+        prefer the first block that ended with an oracle failure, else the first block of that seed"""
+        first, cur, on = None, [], False
         for l in open(tf):
             if l.startswith("#scenario"):
                 on = f"seed={seed} " in l
-            if on: out.append(l.rstrip("\n"))
-            if on and l.startswith("#end"): break
-        return out
+                cur = []
+            if on: cur.append(l.rstrip("\n"))
+            if on and l.startswith("#end"):
+                on = False
+                if first is None: first = cur
+                if not want_fail or not l.startswith("#end ok"): return cur
+        return first or []
 
     def write_replay(self, k, kind, fam, seed, msg, trace):
         p = os.path.join(self.out, f"violation_{k}.json")
